@@ -6,7 +6,11 @@ subset) is turned by lib/extract.py into the C09 observation (names of the defin
 (declaration, position, referenced name)); the extracted model produces the same observation from its
 declarations (Model/Lang/Decl.v read by Spec.C09Spec.c09_observe); both are judged by the extracted
 good_C09 / c09_failures, each failing reference is classified by the extracted c09_ref_class from the
-input program + configuration + the coordinates of the reference."""
+input program + configuration + the coordinates of the reference.
+Two findings of the unchanged tree, C09-generic-ref and C09-const-type, are repaired in /repo (core/src/reconcile.rs:
+check_type resolves the id of a Generic, reconcile_aliases visits the const types): they are in no class any more
+(Props C09_generic_ref_fixed*, C09_const_type_fixed*), their witnesses run first in every language that can print
+them and must PASS - a reference that keeps the Rust name is a plain violation."""
 import concurrent.futures, json, subprocess
 import vf, progs, back, extract
 import c09_gen
@@ -92,13 +96,6 @@ W_COMMON = '''
 pub struct S { pub a: u32 }
 '''
 WITNESSES = {
-    'C09-generic-ref': ('typescript', {}, W_COMMON + '''
-#[typeshare]
-#[serde(rename = "GRen")]
-pub struct G<T> { pub t: T }
-#[typeshare]
-pub struct H { pub g: G<S> }
-'''),
     'C09-kotlin-enum-parent': ('kotlin', {'package': 'p', 'prefix': 'KP'}, '''
 #[typeshare]
 #[serde(tag = "type", content = "content", rename = "ERen")]
@@ -168,14 +165,66 @@ pub struct Foo<TId> { pub x: TId, pub v: Vec<UserId> }
 #[serde(tag = "type", content = "content")]
 pub enum E { XyZwQr { a: u32 }, Other(u32) }
 '''),
-    'C09-const-type': ('typescript', {}, '''
+}
+
+# witnesses of the findings repaired in /repo (KNOWN_FINDINGS.jsonl status fixed): (finding, lang, cfg, source, a reference the
+# generated file must spell).  They are outside every class and must PASS.
+W_GENERIC = W_COMMON + '''
+#[typeshare]
+#[serde(rename = "GRen")]
+pub struct G<T> { pub t: T }
+#[typeshare]
+pub struct H { pub g: G<S>, pub v: Vec<G<u32>>, pub o: Option<G<G<S>>> }
+#[typeshare]
+pub type GA = G<S>;
+#[typeshare]
+#[serde(tag = "type", content = "content")]
+pub enum E { V1(G<S>), V2 { g: G<u32> } }
+'''
+W_CONST = '''
 #[typeshare]
 #[serde(rename = "ARen")]
 pub type A = u32;
 #[typeshare]
 pub const LIMIT: A = 5;
-'''),
-}
+'''
+FIXED_WITNESSES = [
+    ('C09-generic-ref', 'typescript', {}, W_GENERIC, ('H', 'field', 'GRen')),
+    ('C09-generic-ref', 'typescript', {}, W_GENERIC, ('GA', 'alias', 'GRen')),
+    ('C09-generic-ref', 'typescript', {}, W_GENERIC, ('E', 'payload', 'GRen')),
+    ('C09-generic-ref', 'kotlin', {'package': 'p', 'prefix': 'KP'}, W_GENERIC, ('KPH', 'field', 'KPGRen')),
+    ('C09-generic-ref', 'swift', {'prefix': 'OP'}, W_GENERIC, ('OPH', 'field', 'OPGRen')),
+    ('C09-generic-ref', 'scala', {'package': 'p.q'}, W_GENERIC, ('H', 'field', 'GRen')),
+    ('C09-generic-ref', 'go', {'package': 'p'}, W_GENERIC, ('H', 'field', 'GRen')),
+    ('C09-generic-ref', 'python', {}, W_GENERIC, ('H', 'field', 'GRen')),
+    ('C09-const-type', 'typescript', {}, W_CONST, ('LIMIT', 'const', 'ARen')),
+    ('C09-const-type', 'python', {}, W_CONST, ('LIMIT', 'const', 'ARen')),
+]
+
+
+def fixed_witnesses(chk, corr):
+    """the witnesses of the repaired findings: inside the domain, in no class, generated, the implementation's observation is good,
+    equals the model's and spells the renamed reference.  Anything else is a regression (plain violation)."""
+    res = run_cases([(l, c, s) for _, l, c, s, _ in FIXED_WITNESSES])
+    for k, ((fid, lang, cfg, src, ref), r) in enumerate(zip(FIXED_WITNESSES, res)):
+        chk.count('fixed_witness_runs')
+        nv = len(chk.violations)
+        verdict(chk, r, f'fixed-{fid}-{k}', corr)
+        if len(chk.violations) > nv:
+            continue                      # a failing reference was reported (known_C09 = None: every failure is a violation)
+        payload = {k2: r.get(k2) for k2 in ('lang', 'cfg', 'source', 'impl', 'model', 'known', 'classes', 'dom', 'impl_obs', 'model_obs')}
+        payload['fixed_finding'] = fid
+        payload['expected_reference'] = {'in': ref[0], 'position': ref[1], 'name': ref[2]}
+        if r.get('model_raw') != 'ok' or r['impl'] != 'ok' or r.get('model') != 'ok' or not r.get('dom'):
+            chk.violation(f'fixed-{fid}-{k}', payload, f'witness of the fixed finding {fid} ({lang}) is no longer generated inside dom_C09 by implementation and model')
+        elif r['known'] is not None:
+            chk.violation(f'fixed-{fid}-{k}', payload, f'witness of the fixed finding {fid} ({lang}) falls into class {r["known"]}: the class was removed from known_C09', no_input=True)
+        elif not r['impl_judge'][0]:
+            chk.violation(f'fixed-{fid}-{k}', payload, f'witness of the fixed finding {fid} ({lang}) fails good_C09 again: regression')
+        elif ref not in r['impl_obs'][1]:
+            chk.violation(f'fixed-{fid}-{k}', payload, f'witness of the fixed finding {fid} ({lang}): the generated file does not spell the {ref[1]} reference `{ref[2]}` in `{ref[0]}`')
+        elif r['impl_obs'] != r['model_obs']:
+            chk.violation(f'fixed-{fid}-{k}', payload, f'witness of the fixed finding {fid} ({lang}): model and implementation observe different references', no_input=True)
 
 
 # ---------------------------------------------------------------- running a batch
@@ -320,6 +369,8 @@ def run(chk):
         return
     rng = chk.rng
     corr = []
+    # 0. the witnesses of the two findings repaired in /repo must pass
+    fixed_witnesses(chk, corr)
     # 1. the witnesses of the recorded classes, against the real code
     wl = sorted(WITNESSES.items())
     res = run_cases([(l, c, s) for _, (l, c, s) in wl])
